@@ -49,7 +49,7 @@ def main():
             for cid in checks:
                 rc, out = sh(["./check", cid, "--tier", "quick"], cwd="/verif",
                              env={"VERIF_REPO": WT, "VERIF_CACHE": CACHE, "VERIF_EVIDENCE": ROOT + "/evidence"}, timeout=1800)
-                lines = [l for l in out.splitlines() if l.startswith(("VIOLATION", "OK ", "KNOWN-FINDING", "  ["))]
+                lines = [l for l in out.splitlines() if l.startswith(("VIOLATION", "OK ", "KNOWN-FINDING", "NOTE", "  ["))]
                 res[cid] = {"rc": rc, "lines": lines[:8]}
             rec["checks"] = res
     sh("git checkout -- . && git clean -fdq", cwd=WT)
@@ -59,7 +59,7 @@ def main():
         dest = os.path.join("/verif/benign", dest_id)
         os.makedirs(dest, exist_ok=True)
         for fn in os.listdir(src):
-            if os.path.isfile(os.path.join(src, fn)):
+            if os.path.isfile(os.path.join(src, fn)) and os.path.abspath(src) != os.path.abspath(dest):
                 shutil.copy(os.path.join(src, fn), dest)
         meta = {}
         mp = os.path.join(src, "meta.json")
